@@ -28,7 +28,10 @@ METHODS = [("BaseInt", "validate"), ("BaseFloat", "validate"), ("BaseComplex", "
            ("This", "validate"), ("This", "validate_none"),
            ("BaseRange", "validate"), ("BaseRange", "float_validate"), ("BaseRange", "int_validate"),
            ("BaseEnum", "validate"), ("Map", "validate"),
-           ("BaseInstance", "validate"), ("Type", "validate"), ("_NoneTrait", "validate")]
+           ("BaseInstance", "validate"), ("Type", "validate"), ("_NoneTrait", "validate"),
+           ("Tuple", "validate"), ("Union", "validate")]
+# methods of traits/trait_handlers.py
+HANDLER_METHODS = [("TraitCompound", "validate"), ("TraitCompound", "slow_validate")]
 
 
 class Unknown(Exception):
@@ -92,6 +95,23 @@ class Fn:
             if n.keywords or any(isinstance(a, ast.Starred) for a in n.args):
                 return "(.unsupported %s)" % lstr(ast.unparse(n)[:60])
             f = n.func
+            if (isinstance(f, ast.Name) and f.id == "tuple" and len(n.args) == 1
+                    and isinstance(n.args[0], ast.GeneratorExp)):
+                g = n.args[0]
+                if (len(g.generators) == 1 and not g.generators[0].ifs and not g.generators[0].is_async
+                        and isinstance(g.generators[0].target, ast.Tuple) and len(g.generators[0].target.elts) == 2
+                        and all(isinstance(x, ast.Name) for x in g.generators[0].target.elts)
+                        and isinstance(g.generators[0].iter, ast.Call)
+                        and isinstance(g.generators[0].iter.func, ast.Name) and g.generators[0].iter.func.id == "zip"
+                        and len(g.generators[0].iter.args) == 2 and not g.generators[0].iter.keywords):
+                    a, b = g.generators[0].target.elts
+                    xs, ys = g.generators[0].iter.args
+                    ex, ey = E(xs), E(ys)
+                    i, j = self.slot(a.id), self.slot(b.id)
+                    return "(.tupleZip %d %d %s %s %s)" % (i, j, ex, ey, E(g.elt))
+                return "(.unsupported %s)" % lstr(ast.unparse(n)[:60])
+            if isinstance(f, ast.Name) and f.id in self.slots:
+                return "(.callVal %s %s)" % (E(f), self.args(n.args))
             if isinstance(f, ast.Name):
                 if f.id in FUNCTIONS:
                     return "(.method %s %s)" % (lstr(f.id), self.args(n.args))
@@ -99,6 +119,8 @@ class Fn:
             if isinstance(f, ast.Attribute):
                 # self.m(...)
                 if isinstance(f.value, ast.Name) and f.value.id == "self" and self.is_method:
+                    if (self.cls, f.attr) in METHODS + HANDLER_METHODS:
+                        return "(.method %s %s)" % (lstr("%s.%s" % (self.cls, f.attr)), self.margs(n.args))
                     return "(.selfCall %s %s)" % (lstr(f.attr), self.args(n.args))
                 # super().m(...)
                 if (isinstance(f.value, ast.Call) and isinstance(f.value.func, ast.Name)
@@ -106,6 +128,9 @@ class Fn:
                     if not self.bases:
                         raise Unknown("%s: super() without a base" % self.cls)
                     return "(.method %s %s)" % (lstr("%s.%s" % (self.bases[0], f.attr)), self.margs(n.args))
+                # local.m(...)
+                if isinstance(f.value, ast.Name) and f.value.id in self.slots:
+                    return "(.attrCall %s %s %s)" % (E(f.value), lstr(f.attr), self.args(n.args))
                 # module.function(...)
                 if isinstance(f.value, ast.Name) and f.value.id not in self.slots:
                     return "(.call %s %s)" % (lstr("%s.%s" % (f.value.id, f.attr)), self.args(n.args))
@@ -170,6 +195,11 @@ class Fn:
             return "(.assign %d %s)" % (self.slot(n.targets[0].id), e)
         if isinstance(n, ast.If):
             return "(.ite %s %s %s)" % (self.ex(n.test), self.block(n.body), self.block(n.orelse))
+        if isinstance(n, ast.For):
+            if n.orelse or not isinstance(n.target, ast.Name):
+                raise Unknown("%s: unsupported for loop" % self.fn.name)
+            it = self.ex(n.iter)
+            return "(.forIn %d %s %s)" % (self.slot(n.target.id), it, self.block(n.body))
         if isinstance(n, ast.Try):
             if n.orelse or n.finalbody:
                 raise Unknown("%s: try with else/finally" % self.fn.name)
@@ -215,6 +245,17 @@ def emit(traits_dir):
         if cls not in classes:
             raise Unknown("class %s not found" % cls)
         c = classes[cls]
+        ms = [n for n in c.body if isinstance(n, ast.FunctionDef) and n.name == meth]
+        if len(ms) != 1:
+            raise Unknown("%s.%s: %d definitions" % (cls, meth, len(ms)))
+        bases = [b.id for b in c.bases if isinstance(b, ast.Name)]
+        one("%s.%s" % (cls, meth), "m_%s_%s" % (cls, meth), cls, ms[0], bases)
+    htree = ast.parse(open(os.path.join(traits_dir, "trait_handlers.py")).read())
+    hclasses = {n.name: n for n in htree.body if isinstance(n, ast.ClassDef)}
+    for cls, meth in HANDLER_METHODS:
+        if cls not in hclasses:
+            raise Unknown("class %s not found in trait_handlers.py" % cls)
+        c = hclasses[cls]
         ms = [n for n in c.body if isinstance(n, ast.FunctionDef) and n.name == meth]
         if len(ms) != 1:
             raise Unknown("%s.%s: %d definitions" % (cls, meth, len(ms)))
